@@ -214,6 +214,12 @@ fn structured_frames() -> Vec<(String, Vec<u8>)> {
                     }
                     w.u16le(blen as u16).bytes(&vec![0x02; blen]);
                     v.push((format!("fast-path update code {} fragmentation {} compression {} body {}", code, frag, comp, blen), framing::fastpath(0, &w.0, false)));
+                    // the same under the security flags of the fast-path header (secure checksum, encrypted, both)
+                    if frag == 0 {
+                        for first in [0x40u8, 0x80, 0xC0] {
+                            v.push((format!("fast-path header {:#04x} update code {} compression {} body {}", first, code, comp, blen), framing::fastpath(first, &w.0, blen == 30)));
+                        }
+                    }
                 }
             }
         }
@@ -399,7 +405,7 @@ impl Prop for C06 {
         d
     }
     fn rule(&self) -> String {
-        "cases = (client state 0..5 reached by the honest activation prefix, one server frame with <=1 deviation (<=2 thorough)). PDU kinds: demand-active (Windows capability list and minimal), deactivate-all, synchronize, control, font-map, set-error-info, an unparsed data PDU, two share PDUs in one frame, a confirm-active sent by the server, fast-path bitmap (raw + compressed-with-header rectangles), fast-path pointer/synchronize updates, unknown fast-path codes. Deviations: every byte offset x value set (12 boundary values + honest+-1; all 256 in thorough), every offset as 16/32-bit field in both byte orders x boundary set, every truncation, extensions {+1,+2,+1500}; [inner-*] every byte string of length <=2 (<=3 in thorough for the Data state, and state 0 at the share-control entry) and every string of length 3..4 (..6 in thorough) over 8 boundary bytes at the MCS, share-control (states 0,1,5 in quick, all six in thorough) and fast-path parser entries, and as raw unframed bytes at the frame reader; [pairs, thorough] all pairs of {byte:=00, byte:=FF, truncate} over all offsets, in states 0 and 5. [structured] well-formed frames with consistent length fields in each of the six states: every share-control type x version bits x body length, every pduType2 0..0x40 x payload length 0..12, every prefix of the honest body of each data PDU the client parses, TPKT frames whose body is 1..6 bytes long (every X.224 code byte behind 4 length indicators), compression / stream bytes, a demand-active carrying a capability of every type 0..0x1F, 0xFF, 0xFFFF x body length, source descriptors of 0..300 bytes in ASCII / Latin-1 / 2-3-4-byte UTF-8 at every alignment / invalid UTF-8 / UTF-16, capability counts off by +-1 / +100, no and 2000 capabilities, every MCS domain-PDU choice 0..63, every disconnect reason, indications on other channels / from other users, every fast-path update code x fragmentation x compression bit x body length, rectangle counts 0..0xFFFF against two present; [frame-pairs] every ordered pair of 10 well-formed share PDUs in one frame, in each of the six states. After the hostile frame an honest PDU is read to expose desynchronisation loops, then, when the hostile frame was tolerated (read returned Ok), the server plays the rest of an honest activation from that state followed by fast-path output and a data PDU, with an input attempt after every step: a tolerated fault must not blow up later. Non-trivial: the frame differs from the honest one.".into()
+        "cases = (client state 0..5 reached by the honest activation prefix of a client configured, in rotation, 800x600 / 65535x65535 with a 30-byte name / 0x0 without a name / 65533x1, one server frame with <=1 deviation (<=2 thorough)). PDU kinds: demand-active (Windows capability list and minimal), deactivate-all, synchronize, control, font-map, set-error-info, an unparsed data PDU, two share PDUs in one frame, a confirm-active sent by the server, fast-path bitmap (raw + compressed-with-header rectangles), fast-path pointer/synchronize updates, unknown fast-path codes. Deviations: every byte offset x value set (12 boundary values + honest+-1; all 256 in thorough), every offset as 16/32-bit field in both byte orders x boundary set, every truncation, extensions {+1,+2,+1500}; [inner-*] every byte string of length <=2 (<=3 in thorough for the Data state, and state 0 at the share-control entry) and every string of length 3..4 (..6 in thorough) over 8 boundary bytes at the MCS, share-control (states 0,1,5 in quick, all six in thorough) and fast-path parser entries, and as raw unframed bytes at the frame reader; [pairs, thorough] all pairs of {byte:=00, byte:=FF, truncate} over all offsets, in states 0 and 5. [structured] well-formed frames with consistent length fields in each of the six states: every share-control type x version bits x body length, every pduType2 0..0x40 x payload length 0..12, every prefix of the honest body of each data PDU the client parses, TPKT frames whose body is 1..6 bytes long (every X.224 code byte behind 4 length indicators), compression / stream bytes, a demand-active carrying a capability of every type 0..0x1F, 0xFF, 0xFFFF x body length, source descriptors of 0..300 bytes in ASCII / Latin-1 / 2-3-4-byte UTF-8 at every alignment / invalid UTF-8 / UTF-16, capability counts off by +-1 / +100, no and 2000 capabilities, every MCS domain-PDU choice 0..63, every disconnect reason, indications on other channels / from other users, every fast-path update code x fragmentation x compression bit x body length (also under the header's secure-checksum / encrypted flags), rectangle counts 0..0xFFFF against two present; [frame-pairs] every ordered pair of 10 well-formed share PDUs in one frame, in each of the six states. After the hostile frame an honest PDU is read to expose desynchronisation loops, then, whether the hostile frame was tolerated or refused, the server plays the rest of an honest activation from that state followed by fast-path output and a data PDU, with an input attempt after every step: neither a tolerated fault nor a refused one may blow up later. Non-trivial: the frame differs from the honest one.".into()
     }
     fn assumptions(&self) -> Vec<String> {
         vec!["memory rule: single request > 1 MiB or peak > 16 MiB + 1024 x bytes received".into(), "the six states are reached through RdpClient::read on the raw stack (hooks H3/H4); TLS record handling is not part of this property".into()]
@@ -410,7 +416,29 @@ impl Prop for C06 {
     }
     fn run_case(&mut self, idx: u64) -> Outcome {
         let (state, frame, desc, changed) = self.decode(idx);
-        let mut l = match fsm::fresh() {
+        // the client's own configuration rotates with the case index (what it writes while reading depends on it)
+        let mut cfg = crate::fixture::ClientCfg::default();
+        match idx % 4 {
+            1 => {
+                cfg.width = 65535;
+                cfg.height = 65535;
+                cfg.name = "\u{e9}".repeat(15);
+            }
+            2 => {
+                cfg.width = 0;
+                cfg.height = 0;
+                cfg.name = String::new();
+                cfg.layout = 2;
+            }
+            3 => {
+                cfg.width = 65533;
+                cfg.height = 1;
+                cfg.name = "pc-\u{1F600}".into();
+                cfg.layout = 1;
+            }
+            _ => {}
+        }
+        let mut l = match fsm::fresh_with(&cfg) {
             Ok(l) => l,
             Err(e) => return Outcome::fail("setup", "honest-connect-failed", e),
         };
@@ -432,10 +460,9 @@ impl Prop for C06 {
         let honest = sdi(&share::set_error_info(SID, 1002, 0));
         l.sh.borrow_mut().push_to_client(&honest);
         let _ = l.client.read(|_| {});
-        if r1.is_ok() {
-            // (after an error the application drops the connection: nothing follows)
-            aftermath(&mut l, state);
-        }
+        // the server goes on: the rest of an honest activation, output, a data PDU — also after an error (reading again
+        // from a client whose last read failed is reading in "a client state" all the same)
+        aftermath(&mut l, state);
         let res = match r1 {
             Ok(()) => "ok".to_string(),
             Err(e) => err_class(&format!("{:?}", e)),
